@@ -109,7 +109,7 @@ PROPS = {
         explanation="sequential contracts + lemmas by SMT; AT1 structural; format ground.",
     ),
     "C05": dict(
-        specs=["packer", "avp", "avp_types", "avp_grouped", "base", "node_model", "peer", "frames"],
+        specs=["packer", "avp", "avp_types", "avp_grouped", "base", "node_model", "peer", "frames", "node", "c13", "c15"],
         ground=[ground.c15_queue_kinds],
         replay=replay.generic,
         trusted_base=["queue.Queue.get returns an arbitrary received chunk or times out (environment input)"],
@@ -476,3 +476,8 @@ for _pid in ("C06", "C11", "C12", "C14", "C18", "C05", "C15"):
 for _pid in ("C01", "C02", "C03", "C04", "C20"):
     if ground.message_statelessness not in PROPS[_pid]["ground"]:
         PROPS[_pid]["ground"] = list(PROPS[_pid]["ground"]) + [ground.message_statelessness]
+
+# the tables of node / application / connection objects belong to one object each (no class- or module-level mutable state)
+for _pid in ("C07", "C09", "C10", "C13", "C17", "C19"):
+    if ground.node_instance_state not in PROPS[_pid]["ground"]:
+        PROPS[_pid]["ground"] = list(PROPS[_pid]["ground"]) + [ground.node_instance_state]
